@@ -99,8 +99,11 @@ fn repeat_body(a: &mut Args, seq: usize) -> bool {
   if seq >= a.limit {
     return false;
   }
+  // a task that is handed a wrong sequence number declines (the run is recorded
+  // and judged): with a zero period it would otherwise never come to an end
+  let expected = a.logs.lock().unwrap()[a.id].runs.len();
   note_run(a, seq);
-  true
+  seq == expected
 }
 
 fn fut_body(_: (), a: Args) -> NormalReturn<()> {
@@ -150,7 +153,7 @@ impl Scenario for C19Des {
       let kind = match rng.below(6) {
         0 | 1 => Kind::Once,
         2 => Kind::Sub,
-        3 => Kind::Repeat { period_ms: *rng.pick(&[1, 2, 5, 5, 1000]), limit: rng.range(0, 4) as u32, first_ms: if rng.chance(1, 3) { Some(*rng.pick(&[0, 1, 3, 7, 7, 1200])) } else { None } },
+        3 => Kind::Repeat { period_ms: *rng.pick(&[1, 2, 5, 5, 1000, 0]), limit: rng.range(0, 4) as u32, first_ms: if rng.chance(1, 3) { Some(*rng.pick(&[0, 1, 3, 7, 7, 1200])) } else { None } },
         4 => Kind::Fut { polls: rng.below(3) as u32 },
         _ => Kind::FutTimer { ms: *rng.pick(&[0, 1, 5, 5, 1001]) },
       };
